@@ -52,7 +52,10 @@ RULE_ADDED = (
               'ving moved on; authorized-signer iterations over the whole 16-bit range. '
               ' '
               'Round 16: long auth data of little variety (one byte repeated, short patterns), '
-              'envelope pages of 79 bytes. ')
+              'envelope pages of 79 bytes. '
+              ' '
+              'Round 17: SGX attestations of a running (unlocked) device taken with -u, with or'
+              ' without a PIN in the options. ')
 RULE = RULE + " " + RULE_ADDED.strip()
 ASSUMPTIONS = [
     "the genuine-device models in pv/simdev/genuine.py (endorsement scheme two: signatures by "
@@ -516,6 +519,14 @@ def sgx_run(acc, cseed, alter, tmpdir):
             if name == "attestation":
                 opts = options(pin=pin, output_file_path=final, attestation_ud_source=str(ud),
                                any_pin=True)
+                if random.Random(cseed ^ 0x0e0e).random() < 0.4:
+                    # the powHSM is up and running (unlocked): the attestation is taken with
+                    # -u, by a wrapper that hands over the PIN as it always does
+                    dev.unlocked = True
+                    opts = options(pin=rng.choice([pin, pin, None]), no_unlock=True,
+                                   output_file_path=final, attestation_ud_source=str(ud),
+                                   any_pin=True)
+                    acc.count("sgx_attestations_of_a_running_device_with_no_unlock")
             elif name == "pubkeys":
                 opts = options(no_unlock=True, output_file_path=pkout)
             else:
